@@ -143,6 +143,12 @@ class Interp:
             return self.lookup(func, (x.get('referencedDecl') or {}).get('id'), env)
         if k == 'LambdaExpr':
             return Lambda(x, env)
+        if k == 'CXXOperatorCallExpr' and len(children(x)) == 3 and \
+                (strip(children(x)[0]).get('referencedDecl') or {}).get('name') == 'operator+':
+            # "index_Track_" + col_name: the name of the object a data-driven block inspects
+            a_, b_ = self.ev(func, children(x)[1], env), self.ev(func, children(x)[2], env)
+            if isinstance(a_, str) and isinstance(b_, str):
+                return a_ + b_
         if k == 'ArraySubscriptExpr':
             c = children(x)
             a, i = self.ev(func, c[0], env), self.ev(func, c[1], env)
